@@ -365,8 +365,9 @@ def amp_suffix_anchored(ctx, rule):
 # ----------------------------------------------------------------------
 def exception_escape(ctx, rule, n):
     ctx.rule(rule, "exception escape: every may-raise site of the parser table {urlsplit(): ValueError, .port: ValueError} in normalize_url lies in a try whose ValueError handler returns the (resolved) argument unchanged; the re-assembled netloc cannot be None when it is lower-cased")
-    mod = n.ref.module
-    fn = n.ref.node
+    impl = U.body_function(ctx.repo, n.ref)
+    mod = impl.module
+    fn = impl.node
     sites = []
     parents = {}
     for node in ast.walk(fn):
@@ -408,12 +409,15 @@ def exception_escape(ctx, rule, n):
                "normalize_url evaluates %s outside a try/except ValueError: an unparseable url (bad port, unbalanced bracket) raises instead of being returned unchanged" % what,
                mod.site(node), witness="http://a.com:bad/" if what == ".port" else "http://[::1/x")
     # what the ValueError handler returns
-    rets = [r for r in n.rets if r.kind == "return" and any(c[0] == "raises" for c, pol in r.conds)]
+    rets = [r for r in n.rets if r.kind == "return" and F.exception_path(r.conds)]
     ctx.require_instances(rule, len(rets), 1, "returns in the ValueError handler")
     for r in rets:
         t = F.simplify(r.term, {"infer_redirection": False})
-        ctx.ob(rule, "normalize_url/unparseable-returned-unchanged", t == ("param", "url"),
-               "normalize_url's ValueError handler returns %s instead of the url it was given" % P.show(t, maxdepth=4), mod.site(r.node), witness="http://a.com:bad/")
+        if F.feasible(r.conds, {"infer_redirection": False}):
+            ctx.ob(rule, "normalize_url/unparseable-returned-unchanged", t == ("param", "url"),
+                   "normalize_url's ValueError handler returns %s instead of the url it was given" % P.show(t, maxdepth=4), mod.site(r.node), witness="http://a.com:bad/")
+        if not F.feasible(r.conds, {"infer_redirection": True}):
+            continue
         t2 = F.simplify(r.term, {"infer_redirection": True})
         ok = t2 == ("call", NM.REDIRECT, (("param", "url"),), ()) or t2 == ("param", "url")
         ctx.ob(rule, "normalize_url/unparseable-returned-unchanged-after-resolve", ok,
